@@ -133,6 +133,7 @@ type op struct {
 	Many []seedEnt `json:",omitempty"` // seedmany
 	X    *xenv    `json:",omitempty"` // svcx: what happens to the storage operations of the first LoadMin
 	D    []string `json:",omitempty"` // svcil / svcx: services deleted through REST while the request's own save is parked
+	Deep bool  `json:",omitempty"` // svcil / svcx: ErrNotApplied write faults are raised inside the etcd client (the write's transaction fails five times in a row) instead of in front of kv.Base
 	Wait int   `json:",omitempty"` // milliseconds of real time to let pass before the op (thorough tier: real expiry)
 	Now int64  `json:",omitempty"` // filled in by the run
 	Lo  int64  `json:",omitempty"`
@@ -593,8 +594,19 @@ func (w *world) exec(o *op) string {
 				rec := httptest.NewRecorder()
 				w.api.ServeHTTP(rec, httptest.NewRequest(http.MethodDelete, "/pd/api/v1/gc/safepoint/"+d, nil))
 			}
-			w.b.Release("svcil", []kvx15.Mode{kvx15.Pass, kvx15.FailBefore, kvx15.FailAfter}[o.Out])
-			res = <-done
+			if o.Deep && o.Out == 1 {
+				// the failure is raised below kv.Base: etcd does not commit this key's write, five times in a row
+				f0 := w.hold.Failed()
+				w.hold.FailTxn("/"+key, 5)
+				w.b.Release("svcil", kvx15.Pass)
+				res = <-done
+				w.R.CountN("etcd-write-fault:transactions-failed", w.hold.Failed()-f0)
+				w.hold.FailTxn("", 0)
+				w.R.Count("svcil:own-save-failed-inside-etcd-client")
+			} else {
+				w.b.Release("svcil", []kvx15.Mode{kvx15.Pass, kvx15.FailBefore, kvx15.FailAfter}[o.Out])
+				res = <-done
+			}
 			w.R.Count("svcil:parked-at-own-save")
 		case res = <-done:
 			w.R.Count("svcil:finished-without-own-save")
@@ -641,33 +653,57 @@ func (w *world) exec(o *op) string {
 			gcwFinite = true
 		}
 		var script []*kvx15.Step
+		// write(key, dels, m): the step of one Save / Remove. With o.Deep an ErrNotApplied fault is raised below kv.Base: the
+		// operation is let through and the etcd client fails its transaction (five times in a row, until the next step)
+		write := func(kind kvx15.Kind, key string, dels []string, m int) *kvx15.Step {
+			before := rest(dels)
+			mode := modes[m]
+			if o.Deep {
+				mode = modes[m]
+				if m == 1 {
+					mode = kvx15.Pass
+				}
+				before = func() {
+					rest(dels)()
+					if m == 1 {
+						w.hold.FailTxn("/"+key, 5)
+						w.R.Count("svcx:write-failed-inside-etcd-client")
+					} else {
+						w.hold.FailTxn("", 0)
+					}
+				}
+			}
+			return &kvx15.Step{Match: func(x kvx15.Op) bool { return x.Kind == kind && x.Key == key }, Before: before, Mode: mode}
+		}
 		script = append(script, &kvx15.Step{Match: func(x kvx15.Op) bool { return x.Kind == kvx15.LoadRange }, Mode: modes[o.X.LR]})
 		for _, st := range o.X.Steps {
-			st := st
 			if st.Key == "gc_worker" {
-				script = append(script, &kvx15.Step{Match: func(x kvx15.Op) bool { return x.Kind == kvx15.Save && x.Key == gcwKey },
-					Before: rest(st.Dels), Mode: modes[st.Rep]})
+				script = append(script, write(kvx15.Save, gcwKey, st.Dels, st.Rep))
 			} else {
-				script = append(script, &kvx15.Step{Match: func(x kvx15.Op) bool { return x.Kind == kvx15.Remove && x.Key == svcPrefix+st.Key },
-					Before: rest(st.Dels), Mode: modes[st.Rem]})
+				script = append(script, write(kvx15.Remove, svcPrefix+st.Key, st.Dels, st.Rem))
 			}
 		}
 		_ = gcwFinite
 		// the (re)creation of gc_worker's entry is the Save on its key that is not the repair (the repair step, if any, is consumed first)
-		script = append(script, &kvx15.Step{Match: func(x kvx15.Op) bool { return x.Kind == kvx15.Save && x.Key == gcwKey }, Mode: modes[o.X.Init]})
+		script = append(script, write(kvx15.Save, gcwKey, nil, o.X.Init))
 		own := svcPrefix + o.ID
-		script = append(script, &kvx15.Step{Match: func(x kvx15.Op) bool { return x.Kind == kvx15.Save && x.Key == own }, Before: rest(o.D), Mode: modes[o.Out]})
+		script = append(script, write(kvx15.Save, own, o.D, o.Out))
 		t0 := w.tsoNow()
 		for t0.Nanosecond() > 900*int(time.Millisecond) {
 			time.Sleep(10 * time.Millisecond)
 			t0 = w.tsoNow()
 		}
 		o.Lo = t0.Unix() // the bracket is taken on the clock the handler uses (the TSO), not on the wall clock
+		f0 := w.hold.Failed()
 		w.b.Bind("svcx")
 		w.b.Script("svcx", script)
 		r, err := w.x.S.UpdateServiceGCSafePoint(w.ctx, &pdpb.UpdateServiceGCSafePointRequest{Header: w.x.Header(),
 			ServiceId: []byte(o.ID), TTL: o.TTL, SafePoint: o.SP})
 		w.R.CountN("svcx:steps-fired", w.b.Fired("svcx"))
+		if o.Deep {
+			w.R.CountN("etcd-write-fault:transactions-failed", w.hold.Failed()-f0)
+			w.hold.FailTxn("", 0)
+		}
 		w.b.Script("svcx", nil)
 		w.b.Unbind()
 		t1 := w.tsoNow()
@@ -1122,7 +1158,7 @@ func bulk(r *rng.R) op {
 // Steps are attached to the entries that make the loop issue an operation: clearly expired ones (their Remove) and a
 // finite gc_worker entry (its repair save).
 func (w *world) genSvcX(r *rng.R) op {
-	o := op{K: "svcx", ID: cleanIDs[r.Intn(len(cleanIDs))], TTL: int64(1000 + r.Intn(9000)), SP: pickSP(r), X: &xenv{}, Out: r.Pick(70, 15, 15)}
+	o := op{K: "svcx", ID: cleanIDs[r.Intn(len(cleanIDs))], TTL: int64(1000 + r.Intn(9000)), SP: pickSP(r), X: &xenv{}, Out: r.Pick(70, 15, 15), Deep: r.Pct(50)}
 	// (TTL > 0 always: with TTL <= 0 the call's first storage operation is the Remove of its own key, which a step for
 	// that key's expired entry would catch instead; the model has no fault on that removal)
 	if r.Pct(8) {
@@ -1279,7 +1315,7 @@ func (w *world) genCase(r *rng.R, kind int, maxOps int, lockedMode bool) caseRec
 				}
 				if r.Pct(22) {
 					// a registration with REST deletes slipping in before its save, and/or a failing save
-					o := op{K: "svcil", ID: cleanIDs[r.Intn(len(cleanIDs))], TTL: int64(1000 + r.Intn(9000)), SP: pickSP(r), Out: r.Pick(60, 20, 20)}
+					o := op{K: "svcil", ID: cleanIDs[r.Intn(len(cleanIDs))], TTL: int64(1000 + r.Intn(9000)), SP: pickSP(r), Out: r.Pick(60, 20, 20), Deep: r.Pct(50)}
 					if r.Pct(15) {
 						o.TTL = pickTTL(r)
 					}
@@ -1356,6 +1392,14 @@ func directed() [][]op {
 			{K: "svcx", ID: "h4", TTL: 1000, SP: 15, X: &xenv{}}, {K: "apidel", ID: "h4"}},
 		{{K: "seed", ID: "a1", Rel: 2000, SP: math.MaxUint64}, {K: "svcx", ID: "h4", TTL: 1000, SP: 15, X: &xenv{Init: 1}}, {K: "svcx", ID: "h4", TTL: 1000, SP: 15, X: &xenv{Init: 2}},
 			{K: "svcx", ID: "h4", TTL: 1000, SP: 15, X: &xenv{}}},
+		// etcd itself does not commit a write (its transaction fails five times in a row, below kv.Base and whatever retrying
+		// the storage layer does): the registration's own save, the removal of an expired entry, gc_worker's re-creation. A
+		// call whose write was not committed must not be acknowledged; what is acknowledged is stored.
+		{{K: "svc", ID: "gc_worker", TTL: inf, SP: 10}, {K: "svcil", ID: "a1", TTL: 1000, SP: 20, Out: 1, Deep: true}, {K: "svc", ID: "gc_worker", TTL: inf, SP: 30},
+			{K: "svcx", ID: "b2", TTL: 1000, SP: 40, X: &xenv{}, Out: 1, Deep: true}, {K: "svc", ID: "gc_worker", TTL: inf, SP: 50},
+			{K: "seed", ID: "z5", Rel: -2000, SP: 3}, {K: "svcx", ID: "h4", TTL: 1000, SP: 60, X: &xenv{Steps: []xstep{{Key: "z5", Rem: 1}}}, Deep: true},
+			{K: "svcx", ID: "h4", TTL: 1000, SP: 61, X: &xenv{}, Deep: true}},
+		{{K: "seed", ID: "a1", Rel: 2000, SP: 70}, {K: "svcx", ID: "h4", TTL: 1000, SP: 15, X: &xenv{Init: 1}, Deep: true}, {K: "svcx", ID: "h4", TTL: 1000, SP: 15, X: &xenv{}, Deep: true}},
 		// > 200 registrations, every id followed by an id extending it (t049 / t049-x ...): a paged or prefix-based range read
 		// must not lose any of them; the smallest safe points and an expired entry sit right behind would-be page boundaries
 		{bulk(nil), {K: "svc", ID: "a1", TTL: 1000, SP: 500}, {K: "svc", ID: "t099-x", TTL: 1000, SP: 12}, {K: "svc", ID: "t049-x", TTL: 0, SP: 0},
